@@ -10,6 +10,7 @@ git diff --name-only --diff-filter=U | grep -q MANIFEST.json && git checkout --o
 python3 tools/mkmanifest.py
 git add -A; git commit -qm "Merge build/$b" 2>/dev/null
 (cd harness && cargo build --release --offline 2>&1 | grep -E "^error" | head -3)
-(cd lean && lake build Norad driver 2>&1 | grep -E "error|✖" | head)
+# the whole library must build after a merge (builders share lemma files): under the lake lock, with the generated files of /repo
+( flock 9; python3 tools/extract.py --all > /dev/null; cd lean && if ! lake build Norad driver > /tmp/mergeb.lake.log 2>&1; then echo "!!!!!!!! LAKE BUILD FAILED AFTER MERGE of $b:"; grep -E "^error|✖" /tmp/mergeb.lake.log | head; fi ) 9> /verif/.build/lake.lock
 for c in "$@"; do ./check $c 2>&1 | tail -1 | cut -c1-160; done
 git add -A; git commit -qm "evidence refresh ($*)" -q 2>/dev/null
